@@ -79,7 +79,7 @@ Section Reject.
     mac_rejects m packet (rf_max_payload rf) ->
     handle_event enc mac_fn (NWaitRx join rx1 rx2 w rf) m e NPhy (RaRxDone packet) =
     handle_event enc mac_fn (NWaitRx join rx1 rx2 w rf) m e NPhy RaRxing /\
-    (n_fault e <> Some (n_calls e) ->
+    (nfaulty e = false ->
      handle_event enc mac_fn (NWaitRx join rx1 rx2 w rf) m e NPhy (RaRxDone packet) =
      (NWaitRx join rx1 rx2 w rf, m, {| n_calls := n_calls e + 1; n_fault := n_fault e; n_trace := NcPhy :: n_trace e |}, NrNoUpdate)).
   Proof.
@@ -89,8 +89,6 @@ Section Reject.
     - cbn [handle_event]. destruct (ncall_radio e NcPhy) as [e1 ok]. destruct ok; cbn [negb]; [|reflexivity].
       rewrite LB, H. reflexivity.
     - intros NFa. cbn [handle_event]. unfold ncall_radio.
-      assert (F : match n_fault e with Some k => k =? n_calls e | None => false end = false).
-      { destruct (n_fault e) as [k|]; [|reflexivity]. apply N.eqb_neq. intros ->. apply NFa. reflexivity. }
-      rewrite F. cbn [negb]. rewrite LB, H. reflexivity.
+      rewrite NFa. cbn [negb]. rewrite LB, H. reflexivity.
   Qed.
 End Reject.
